@@ -115,7 +115,7 @@ def run_one(ws, harness, timeout, log_path, extra=(), mem_kb=24_000_000, playbac
     res = HarnessResult(harness)
     res.log = log_path
     tgt = target or os.path.join(ws.dir, "tgt-" + re.sub(r"\W", "_", harness)[-60:])
-    args = ["cargo", "kani", "--harness", harness, "--exact", "-Z", "stubbing", "--target-dir", tgt]
+    args = ["cargo", "kani", "--harness", harness, "--exact", "-Z", "stubbing", "-Z", "restrict-vtable", "--target-dir", tgt]
     if ws.features:
         args += ["--features", ",".join(ws.features)]
     if playback:
@@ -150,38 +150,70 @@ def run_one(ws, harness, timeout, log_path, extra=(), mem_kb=24_000_000, playbac
 
 
 def run_many(ws, harnesses, timeout, logdir, jobs=8, extra=(), mem_kb=24_000_000, seed_target=None, playback_on_fail=True):
-    """Runs harnesses in parallel processes, each with a private target dir (optionally seeded
-    by copying a warmed dependency build)."""
+    """Runs harnesses of ONE workspace in parallel (see run_pool for several workspaces)."""
+    jobs_list = [dict(ws=ws, harness=h, timeout=timeout, extra=extra, mem_kb=mem_kb, weight=1, seed_target=seed_target) for h in harnesses]
+    res = run_pool(jobs_list, logdir, capacity=jobs, playback_on_fail=playback_on_fail)
+    return [res[(id(ws), h)] for h in harnesses]
+
+
+def run_pool(job_list, logdir, capacity=16, playback_on_fail=True):
+    """Runs jobs {ws, harness, timeout, extra, mem_kb, weight, seed_target} in parallel processes,
+    each with a private target dir, keeping the sum of the weights of running jobs <= capacity
+    (weight ~ cores/memory share; a 10 GB harness has weight 3 on this 16-core/62 GB box).
+    Returns {(id(ws), harness): HarnessResult}."""
     os.makedirs(logdir, exist_ok=True)
     results = {}
-    lock = threading.Lock()
-    queue = list(harnesses)
+    cond = threading.Condition()
+    state = {"load": 0}
+    queue = sorted(job_list, key=lambda j: -j.get("weight", 1))
+
+    def run_job(j):
+        ws, h = j["ws"], j["harness"]
+        short = re.sub(r"\W", "_", h)[-70:]
+        tgt = os.path.join(ws.dir, "tgt-" + short)
+        st = j.get("seed_target")
+        if st and os.path.isdir(st):
+            subprocess.run(["cp", "-a", "--reflink=auto", st, tgt])
+        r = run_one(ws, h, j["timeout"], os.path.join(logdir, short + ".log"), extra=j.get("extra", ()), mem_kb=j.get("mem_kb", 24_000_000), target=tgt)
+        if r.status == "FAILED" and playback_on_fail:
+            r2 = run_one(ws, h, j["timeout"], os.path.join(logdir, short + ".playback.log"), extra=j.get("extra", ()),
+                         mem_kb=j.get("mem_kb", 24_000_000), playback=True, target=tgt)
+            r.playback = r2.playback
+            r.playbacks = r2.playbacks
+        subprocess.run(["rm", "-rf", tgt])
+        return r
 
     def worker():
         while True:
-            with lock:
-                if not queue:
-                    return
-                h = queue.pop(0)
-            short = re.sub(r"\W", "_", h)[-70:]
-            tgt = os.path.join(ws.dir, "tgt-" + short)
-            if seed_target and os.path.isdir(seed_target):
-                subprocess.run(["cp", "-a", "--reflink=auto", seed_target, tgt])
-            r = run_one(ws, h, timeout, os.path.join(logdir, short + ".log"), extra=extra, mem_kb=mem_kb, target=tgt)
-            if r.status == "FAILED" and playback_on_fail:
-                r2 = run_one(
-                    ws, h, timeout, os.path.join(logdir, short + ".playback.log"), extra=extra,
-                    mem_kb=mem_kb, playback=True, target=tgt,
-                )
-                r.playback = r2.playback
-                r.playbacks = r2.playbacks
-            subprocess.run(["rm", "-rf", tgt])
-            with lock:
-                results[h] = r
+            with cond:
+                while True:
+                    if not queue:
+                        return
+                    # first job that fits
+                    pick = None
+                    for j in queue:
+                        if state["load"] + j.get("weight", 1) <= capacity or state["load"] == 0:
+                            pick = j
+                            break
+                    if pick is not None:
+                        queue.remove(pick)
+                        state["load"] += pick.get("weight", 1)
+                        break
+                    cond.wait(timeout=5)
+            try:
+                r = run_job(pick)
+            except Exception as e:  # pragma: no cover
+                r = HarnessResult(pick["harness"])
+                r.status = "INCONCLUSIVE"
+                r.reason = "runner error: %s" % e
+            with cond:
+                results[(id(pick["ws"]), pick["harness"])] = r
+                state["load"] -= pick.get("weight", 1)
+                cond.notify_all()
 
-    threads = [threading.Thread(target=worker) for _ in range(min(jobs, max(1, len(harnesses))))]
+    threads = [threading.Thread(target=worker) for _ in range(min(16, max(1, len(job_list))))]
     for t in threads:
         t.start()
     for t in threads:
         t.join()
-    return [results[h] for h in harnesses]
+    return results
